@@ -20,6 +20,7 @@ mod streams;
 mod regions;
 mod sched;
 mod copyw;
+mod amap;
 
 use std::io::{BufRead, BufWriter, Write};
 
@@ -44,6 +45,7 @@ fn main() {
         "regions" => Box::new(regions::RegionsExec::default()),
         "sched" => Box::new(sched::SchedExec::default()),
         "copyw" => Box::new(copyw::CopyExec::default()),
+        "amap" => Box::new(amap::AmapExec::default()),
         _ => {
             eprintln!("unknown module {module}");
             std::process::exit(2);
